@@ -21,6 +21,8 @@ def ground_truth(ctx) -> dict[tuple, list]:
     for r in ctx.netlog:
         if r.phase not in ("examples", "coverage", "fuzzing", "stateful") or r.op is None or r.outcome != "response":
             continue
+        if r.tag == "auth_not_enforced" and not (r.response is not None and 200 <= r.response.status < 300):
+            continue  # certain only for a 2xx answer to a request without valid credentials
         for chk in DEVIATION_VIOLATES.get(r.tag, ()):
             if chk in enabled:
                 g.setdefault((r.phase, r.op, chk), []).append(r)
